@@ -108,7 +108,13 @@ func (c *Ctx) Sample(x any) {
 func (c *Ctx) Violate(key, msg string, replay any) {
 	// keep at most 20 violations; the first ones are the most useful
 	c.Stats["violations_total"]++
-	if len(c.Violations) < 20 {
+	perKey := 0
+	for _, v := range c.Violations {
+		if v.Key == key {
+			perKey++
+		}
+	}
+	if perKey < 2 && len(c.Violations) < 40 {
 		c.Violations = append(c.Violations, Violation{Key: key, Msg: msg, Replay: replay})
 		_ = c.flushPartial() // survive a later crash of the harness
 	}
